@@ -13,7 +13,7 @@ open Refinery Refinery.Model.Shutdown Oracle
 
 /-- `false`: the code as it is (Stop does not drain the workers, healthCheck ignores the cancelled
 context); `true`: the proposed repair.  Flip when the fix is applied to /repo. -/
-def variant : Bool := false
+def variant : Bool := true
 
 structure OSt where
   c : Cfg := {}
